@@ -35,7 +35,7 @@ from featlib import Check, walk, render, is_call, rel
 
 LAFEM = featlib.repo_path("kernel/lafem/")
 FILES = (LAFEM + "|" + featlib.repo_path("kernel/util/pack") + "|" + featlib.repo_path("control/checkpoint_control")
-         + "|" + featlib.repo_path("kernel/util/binary_stream"))
+         + "|" + featlib.repo_path("kernel/util/binary_stream") + "|" + featlib.repo_path("kernel/util/string"))
 
 
 class Unknown(Exception):
@@ -3418,6 +3418,155 @@ def check_entry_coordinates(ck, facts):
                 ck.ob(R, key, not bad, "; ".join(bad) if bad else "; ".join(t for _, t in verdicts), fw.file, chain.get("l"),
                       sample={"row": sp.sstr(forms[0]), "column": sp.sstr(forms[1]), "size-line": [list(map(str, e_)) for e_ in exts], "established": [t for _, t in verdicts]})
 
+
+# -------------------------------------------------------------------------------------------------
+# clause 3c: the value-formatting helpers of the text writers carry no state from one call to the next
+# -------------------------------------------------------------------------------------------------
+
+# sticky formatting properties of a std::ios (width is reset by every insertion and is not one of them)
+MANIP_FAMILY = {"std::scientific": "floatfield", "std::fixed": "floatfield", "std::hexfloat": "floatfield", "std::defaultfloat": "floatfield",
+                "std::showpos": "showpos", "std::noshowpos": "showpos", "std::hex": "basefield", "std::dec": "basefield", "std::oct": "basefield",
+                "std::left": "adjustfield", "std::right": "adjustfield", "std::internal": "adjustfield", "std::boolalpha": "boolalpha", "std::noboolalpha": "boolalpha",
+                "std::uppercase": "uppercase", "std::nouppercase": "uppercase", "std::showpoint": "showpoint", "std::noshowpoint": "showpoint",
+                "std::showbase": "showbase", "std::noshowbase": "showbase", "std::setprecision": "precision", "std::setfill": "fill", "std::setbase": "basefield",
+                "std::setiosflags": "flags", "std::resetiosflags": "flags", "std::setw": None, "std::endl": None, "std::flush": None, "std::ends": None}
+MANIP_METHOD = {"precision": "precision", "fill": "fill", "setf": "flags", "unsetf": "flags", "flags": "flags", "width": None}
+STREAM_TYPE_RE = r"\b(std::)?(basic_)?(o|i)?(string)?stream\b|std::ostringstream|std::stringstream|std::ostream"
+
+
+def check_format_state(ck, facts):
+    """every function of kernel/util/string.hpp (and any other repository function with a static local) that the stream overloads of
+    write_out reach within three calls returns a text that depends on its arguments only: it has no mutable static / thread_local local;
+    a static stream is admitted only if, on every path to the insertion of the value, its content is reset and every sticky formatting
+    property the function ever sets (precision, float format, showpos, fill, base ...) is set again or the whole format is reset"""
+    R = "E7.format-stateless"
+    wr = stream_overloads(facts, "write_out", "ostream")
+    repo = featlib.repo_path("")
+    reach, frontier = {}, list(wr.values())
+    for depth in range(3):
+        nxt = []
+        for f in frontier:
+            for n in f.nodes():
+                if n.get("k") in ("Call", "MCall") and (n.get("cfile") or "").startswith(repo):
+                    g = norm_c05.callee_function(facts, n)
+                    if g is not None and (g.file, g.line) not in reach and g.name not in ("write_out", "read_from"):
+                        reach[(g.file, g.line)] = g
+                        nxt.append(g)
+        frontier = nxt
+    done = 0
+    for key_ in sorted(reach):
+        g = reach[key_]
+        statics = [v for n in g.nodes() if n.get("k") == "Decl" for v in n["vars"] if v.get("static") and not v.get("const")]
+        in_string = g.file.endswith("kernel/util/string.hpp")
+        if not statics and not in_string:
+            continue
+        name = strip_targs(g.full).replace("FEAT::", "")
+        if not statics:
+            ck.ob(R, "%s/no-static-state" % name, True, "no static / thread_local local: the text returned depends on the arguments only", g.file, g.line)
+            done += 1
+            continue
+        for v in statics:
+            key = "%s/static:%s" % (name, v["n"])
+            vt = g.type(v.get("t")) or ""
+            if not re.search(STREAM_TYPE_RE, vt):
+                ck.incomplete(R, "%s: a mutable static local of type %s survives between the calls of a helper the text writers print through; whether the result depends on it is not analysed" % (key, vt))
+                continue
+            cfg = g.cfg
+            if cfg is None:
+                ck.incomplete(R, "%s: no control-flow graph" % key)
+                continue
+            d = v["d"]
+            inner = set()
+            apps, inserts, resets, content, escaped = [], [], [], [], []
+
+            def on_v(x):
+                x = strip_cast(x)
+                return x is not None and x.get("k") == "Ref" and x.get("d") == d
+            for n in g.nodes():
+                if n.get("k") == "OpCall" and n.get("op") == "<<" and id(n) not in inner:
+                    items = flatten_chain(n)
+                    for y in walk(n):
+                        if y is not n and y.get("k") == "OpCall" and y.get("op") == "<<":
+                            inner.add(id(y))
+                    if not on_v(items[0]):
+                        continue
+                    ids = set(y.get("i") for y in walk(n) if y.get("k") == "OpCall" and y.get("op") == "<<")
+                    for it in items[1:]:
+                        it0 = strip_cast(it)
+                        nm = None
+                        if it0.get("k") == "Ref" and it0.get("dk") == "func":
+                            nm = it0.get("qn") or ("std::" + it0.get("n", ""))
+                        elif it0.get("k") == "Call" and (it0.get("callee") or "").startswith("std::set") or (it0.get("k") == "Call" and (it0.get("callee") or "") in MANIP_FAMILY):
+                            nm = it0.get("callee")
+                        if nm is not None and nm in MANIP_FAMILY:
+                            if MANIP_FAMILY[nm] is not None:
+                                apps.append((MANIP_FAMILY[nm], ids, n, nm))
+                        elif nm is not None:
+                            apps.append(("flags", ids, n, nm))
+                        else:
+                            inserts.append((n, it))
+                elif n.get("k") == "MCall" and n.get("obj") is not None and on_v(n["obj"]):
+                    m_ = n.get("n")
+                    if m_ in MANIP_METHOD and n.get("a"):
+                        if MANIP_METHOD[m_] is not None:
+                            apps.append((MANIP_METHOD[m_], {n.get("i")}, n, "." + m_ + "()"))
+                    elif m_ == "str" and n.get("a"):
+                        content.append(({n.get("i")}, n))
+                    elif m_ in ("copyfmt", "swap"):
+                        resets.append(({n.get("i")}, n))
+                        if m_ == "swap":
+                            content.append(({n.get("i")}, n))
+                    elif m_ in ("str", "good", "fail", "bad", "eof", "clear", "rdbuf", "tellp", "seekp", "precision", "width", "fill", "flags", "imbue", "getloc"):
+                        pass
+                    else:
+                        escaped.append(render(n)[:50])
+                elif n.get("k") == "OpCall" and n.get("op") == "=" and n.get("a") and on_v(n["a"][0]):
+                    resets.append(({n.get("i")}, n))
+                    content.append(({n.get("i")}, n))
+                elif n.get("k") in ("Call", "MCall", "Construct", "TempObj") and any(on_v(a_) for a_ in n.get("a", [])):
+                    escaped.append(render(n)[:50])
+            if escaped:
+                ck.incomplete(R, "%s: the static stream is handed to '%s'; what that does to its format is not analysed" % (key, escaped[0]))
+                continue
+            if not inserts:
+                ck.incomplete(R, "%s: no insertion of a value into the static stream recognised" % key)
+                continue
+            par = parent_map(g)
+            bad, unk = [], []
+            for ins, item in inserts:
+                tb = cfg_block_of(g, par, ins)
+                if tb is None:
+                    unk.append("insertion at line %s not located in the control-flow graph" % ins.get("l"))
+                    continue
+
+                def every_path(groups):
+                    ids = set()
+                    for ids_, node_ in groups:
+                        # an application in the block of the insertion counts only if it comes first
+                        if cfg_block_of(g, par, node_) == tb and (node_.get("i") or 0) > (ins.get("i") or 0) and node_ is not ins:
+                            continue
+                        ids |= set(x for x in ids_ if x is not None)
+                    if not ids:
+                        return False
+                    ok_, _ = cfg.must_pass(lambda s_: s_.get("i") in ids, target_blocks=[tb])
+                    return ok_
+                full = every_path(resets)
+                if not every_path(content):
+                    bad.append("the text of the previous call is still in the stream when '%s' is inserted (no str(...) / re-assignment on every path)" % render(item)[:30])
+                for fam in sorted(set(a_[0] for a_ in apps)):
+                    fa = [(ids_, node_) for f_, ids_, node_, _ in apps if f_ == fam]
+                    if not (full or every_path(fa)):
+                        names = sorted(set(nm_ for f_, _, _, nm_ in apps if f_ == fam))
+                        bad.append("%s (%s) is set on some paths only and not reset on the others: a call that does not set it prints with what an earlier call selected" % (fam, ", ".join(names)))
+            if unk and not bad:
+                ck.incomplete(R, "%s: %s" % (key, unk[0]))
+                continue
+            ck.ob(R, key, not bad, ("static stream '%s' keeps state between calls: " % v["n"] + "; ".join(sorted(set(bad)))) if bad else
+                  "static stream '%s': content and every formatting property the function sets are re-established on every path to the insertion" % v["n"], g.file, v.get("l"))
+            done += 1
+    if not done and not reach:
+        ck.incomplete(R, "no formatting helper reached from the text writers (kernel/util/string.hpp not in the facts?)")
+
 # -------------------------------------------------------------------------------------------------
 # clause 4: checkpoints — append-writers vs offset-readers of byte streams
 # -------------------------------------------------------------------------------------------------
@@ -6023,6 +6172,11 @@ def declare_rules(ck, thorough):
             "[0, Fr)> + 1 resp. Fc * <stored column index of the same non-zero> + <offset in [0, Fc)> + 1, with Fr / Fc the factors by which the extents streamed in the "
             "size line of the same writer scale the native extents (BlockHeight / BlockWidth for blocked matrices, 1 otherwise), and the value printed is the "
             "(row offset, column offset) entry of the block; breaks for: blocked matrices with BlockHeight != BlockWidth, any matrix when row and column are exchanged", 4)
+    ck.rule("E7.format-stateless", "the value-formatting helpers the text writers print through (functions of kernel/util/string.hpp - outside the anchored files, but every "
+            "fm_mtx / fm_exp writer relies on stringify_fp_sci - and any other repository function with a static local reached within three calls from write_out(FileMode, "
+            "ostream)) return a text that depends on their arguments only: no mutable static / thread_local local, or, for a static stream, content and every sticky "
+            "formatting property the function sets are re-established on every path to the insertion; breaks for: a text write after any call with another precision / sign "
+            "option in the same thread (two writes of one object differ, the object read back differs in the printed digits)", 1)
     ck.rule("E2.linearisation", "a text reader that splits a running entry counter i into (i / E, i % E) divides by the extent of the dimension that receives i % E, and "
             "that is the dimension the writer of the same mode runs fastest (both extents taken from the parsed size line by role); blocked vectors divide the parsed length by "
             "the factor the writer multiplies with; breaks for: every non-square dense matrix", 3)
@@ -6092,6 +6246,7 @@ def run_on(ck, facts, primary):
         check_text_headers(ck, facts)
         check_size_lines(ck, facts)
         check_entry_coordinates(ck, facts)
+        check_format_state(ck, facts)
         check_linearisation(ck, facts)
         check_rowptr_builders(ck, facts)
         check_checkpoint_control(ck, facts)
@@ -6136,7 +6291,7 @@ def run(tier):
             "_serialized_size are interpreted abstractly (positions as symbolic sums over the array counts, typed buffer views, alignment steps) on all four compression branches and the "
             "writer's and reader's header-slot bindings and segment sequences are compared; byte accounting of the allocation and of the length word; FileMode vocabularies and "
             "(tag, DT, IT) triples of all container classes; magic words and banners of the meta containers; index kinds and coverage of row_ptr in the MatrixMarket reader; record "
-            "layout of CheckpointControl and of the meta containers' checkpoint recursion; Pack case tables, loops and argument roles; emptiness guards of IO routines; block sequence of DistFileIO::write_combined / read_combined (serial and, parsed with FEAT_HAVE_MPI, the MPI implementation); scalar row / column coordinates of the entry lines of the coordinate text modes against the extents announced in the size line. "
+            "layout of CheckpointControl and of the meta containers' checkpoint recursion; Pack case tables, loops and argument roles; emptiness guards of IO routines; block sequence of DistFileIO::write_combined / read_combined (serial and, parsed with FEAT_HAVE_MPI, the MPI implementation); scalar row / column coordinates of the entry lines of the coordinate text modes against the extents announced in the size line; absence of state surviving between calls in the value-formatting helpers (kernel/util/string.hpp) the text writers print through. "
             "Not decided: bit identity and printed precision of values, behaviour of zlib/zfp, duplicate or malformed entries in text files, entry lines of the array (dense) text modes beyond the counter split, "
             "file-name arithmetic of nested meta matrices beyond the instantiated block counts, the other DistFileIO routines (read/write_common, _sequence, _ordered) and the MPI library's own semantics of shared / ordered file pointers.")
     return ck.finish(expl)
